@@ -17,6 +17,7 @@ stub does not need is not a failure; a needed one that is missing is), private m
 """
 import ast
 import builtins
+import datetime as _datetime
 import importlib
 import inspect
 import json
@@ -36,13 +37,14 @@ PRIM_FLOAT = ('Float32', 'Float64')
 # hand-written seeds (always run first)
 
 SEEDS = {
-    # D20 (repaired: both sides say As_validator): alias names that fmt_class changes. The alias of a union is unused, so
-    # that the runtime module imports (its class alias is bound under the raw name on both sides; C09 finding D39)
+    # D20 (repaired: both sides say As_validator) and D39 (repaired: both sides bind HttpUnion = Un): alias names that
+    # fmt_class changes, used as field / tag types and as alias targets
     'alias-not-fmt-class-fixed': [
         ('seed_d20.stone', 'namespace seed_d20\n\nalias AS = String\nalias HTTPCode = Int32\nalias Plain = String\n'
                            'struct Holder\n    p Plain\n    q AS\n    r HTTPCode?\n'
-                           'union Un\n    a\n    b Holder\n'
-                           'alias HTTPUnion = Un\nalias HTTPHolder = Holder\n'),
+                           'union Un\n    a\n    b Holder\n    c HTTPHolder?\n'
+                           'alias HTTPUnion = Un\nalias HTTPHolder = Holder\nalias Second = HTTPUnion\n'
+                           'struct User2\n    u HTTPUnion\n    s Second?\n'),
     ],
     # a namespace module needed only through the target of a foreign alias
     'foreign-alias-chain': [
@@ -137,6 +139,7 @@ def dump_api(api):
             'types': types,
             'aliases': [{'name': a.name, 'ty': dump_ty(a.data_type)} for a in ns.linearize_aliases()],
             'routes': [{'name': r.name, 'version': r.version} for r in ns.routes],
+            'ts_route_attr': any(isinstance(v, _datetime.datetime) for r in ns.routes for v in r.attrs.values()),
         })
     return {'namespaces': out}
 
@@ -383,6 +386,8 @@ class RuntimeModule:
                     self.imports.append(['lib', 'stone_validators', n])
                 elif v.__name__.startswith(pkg + '.'):
                     self.imports.append(['ns', n])
+                elif v is _datetime and n == 'datetime':
+                    self.imports.append(['adhoc', 'import datetime'])
                 else:
                     self.imports.append(['other', n])
             elif type(v).__name__ == '_Feature':
